@@ -122,7 +122,8 @@ def execute(case):
         # ---- run defragment
         source = st.source(case['src_kind'], 'src.tdms')
         if case['dst_kind'] == 'simpath':
-            dest = 'dst.tdms'
+            from ..simfs import SIM_ROOT
+            dest = SIM_ROOT + 'dst.tdms'
             index = case['index']
         elif case['dst_kind'] == 'realpath':
             dest = os.path.join(st.realdir(), 'dst.tdms')
